@@ -167,7 +167,8 @@ class Queue:
         self._thread = threading.Thread(
             target=Queue._feed,
             args=(self._buffer, self._notempty, self._send_bytes,
-                  self._wlock, self._writer.close, self._ignore_epipe),
+                  self._wlock, self._writer.close, self._ignore_epipe,
+                  self._sem),
             name='QueueFeederThread'
         )
         self._thread.daemon = True
@@ -215,7 +216,8 @@ class Queue:
             notempty.notify()
 
     @staticmethod
-    def _feed(buffer, notempty, send_bytes, writelock, close, ignore_epipe):
+    def _feed(buffer, notempty, send_bytes, writelock, close, ignore_epipe,
+              queue_sem=None):
         debug('starting thread to feed data to pipe')
 
         nacquire = notempty.acquire
@@ -229,8 +231,8 @@ class Queue:
         else:
             wacquire = None
 
-        try:
-            while 1:
+        while 1:
+            try:
                 nacquire()
                 try:
                     if not buffer:
@@ -257,23 +259,29 @@ class Queue:
                                 wrelease()
                 except IndexError:
                     pass
-        except Exception as exc:
-            if ignore_epipe and get_errno(exc) == errno.EPIPE:
-                return
-            # Since this runs in a daemon thread the resources it uses
-            # may be become unusable while the process is cleaning up.
-            # We ignore errors which happen after the process has
-            # started to cleanup.
-            try:
-                if is_exiting():
-                    info('error in queue thread: %r', exc, exc_info=True)
-                else:
+            except Exception as exc:
+                if ignore_epipe and get_errno(exc) == errno.EPIPE:
+                    return
+                # Since this runs in a daemon thread the resources it uses
+                # may be become unusable while the process is cleaning up.
+                # We ignore errors which happen after the process has
+                # started to cleanup.
+                try:
+                    if is_exiting():
+                        info('error in queue thread: %r', exc, exc_info=True)
+                        return
+                    # The object could not be sent (e.g. it cannot be
+                    # pickled): it is dropped, its place in the queue is
+                    # given back, and the thread goes on feeding the
+                    # objects put after it.
+                    if queue_sem is not None:
+                        queue_sem.release()
                     if not error('error in queue thread: %r', exc,
                                  exc_info=True):
                         import traceback
                         traceback.print_exc()
-            except Exception:
-                pass
+                except Exception:
+                    pass
 
 _sentinel = object()
 
